@@ -59,6 +59,12 @@ class BestSizes(Contract):
                     continue
                 yield dict(signed=None if 'uint' not in car else (None, False)[gf == 4], f=0, shape=[1] if car.startswith('arr:') else [], bits=8,
                            case='carrier_free' if gf is None else 'carrier_frac_given', carrier=car, given_frac=gf)
+        # integer-typed values (Python int, NumPy integer scalar / array) with n_word given, or n_int with one other size:
+        # the fraction length still follows the rules (a narrow word pushes it below zero; n_int fixes it arithmetically)
+        for signed in (None, True, False):
+            for car in ('pyint', 'np:int64', 'arr:int64', 'arr:uint8'):
+                for case in ('carrier_word_given', 'carrier_int_word', 'carrier_int_frac'):
+                    yield dict(signed=signed, f=0, shape=[1] if car.startswith('arr:') else [], bits=8, case=case, carrier=car, given_frac=None)
         # raw integer codes with only n_frac given, by every container
         for signed in (None, True, False):
             for car in ('list', 'tuple', 'arr', 'pyint'):
@@ -90,6 +96,9 @@ class BestSizes(Contract):
         if c == 'raw_frac_given': return {'n_frac': cfg['given_frac']}
         if c in ('carrier_frac_given', 'frac_given_neg'): return {'n_frac': cfg['given_frac']}
         if c in ('carrier_free', 'mixed_free'): return {}
+        if c == 'carrier_word_given': return {'n_word': 5}
+        if c == 'carrier_int_word': return {'n_int': 4, 'n_word': 9}
+        if c == 'carrier_int_frac': return {'n_int': 4, 'n_frac': 2}
         if c == 'mixed_word_given': return {'n_word': cfg['bits'] // 2 + 2}
 
     def run(self, cfg, P, inp):
@@ -142,7 +151,10 @@ class BestSizes(Contract):
         gv = self.given(cfg)
         if case.startswith('carrier_'):
             out['carrier_exact'] = And(exact, Not(B(st['inaccuracy'])))      # integers are exact at every n_frac >= 0
-            case = 'free' if case == 'carrier_free' else 'frac_given'
+            case = {'carrier_free': 'free', 'carrier_frac_given': 'frac_given', 'carrier_word_given': 'word_given',
+                    'carrier_int_word': 'int_word_given', 'carrier_int_frac': 'int_frac_given'}[case]
+            if case != 'free' and case != 'frac_given':
+                out.pop('carrier_exact')       # a given word / integer length may be too small for the value
         if case == 'frac_given_neg':
             case = 'frac_given'
         if case.startswith('mixed_'):
@@ -195,7 +207,8 @@ class BestSizesCapped(Contract):
     native_only = True
     props = {'*': ['C06']}
 
-    VALUES = [1e-5, -1e-6, 3e-7, 0.1, 1.0 / 3.0, 0.3, 2.15, 1e-9, 123.456, -0.7, 1e-12, 2.0 ** -40, 3 * 2.0 ** -60, 2.0 ** -70, 5e-20, 1 + 2.0 ** -52, 1e5 + 0.1]
+    VALUES = [1e-5, -1e-6, 3e-7, 0.1, 1.0 / 3.0, 0.3, 2.15, 1e-9, 123.456, -0.7, 1e-12, 2.0 ** -40, 3 * 2.0 ** -60, 2.0 ** -70, 5e-20, 1 + 2.0 ** -52, 1e5 + 0.1,
+              2.0 ** 20 + 2.0 ** -20, 2.0 ** 30 + 2.0 ** -22, -(2.0 ** 10) - 2.0 ** -40]
 
     def configs(self, tier):
         for signed in (None, True, False):
@@ -204,6 +217,8 @@ class BestSizesCapped(Contract):
     def run(self, cfg, P, inp):
         from fractions import Fraction
         bad = []; cases = 0
+        # an unrelated Config built from a template must leave no trace in the configured maximum / tolerance used below
+        P.Config(template=P.Config(n_word_max=32, max_error=1e-3))
         vals = [v for v in self.VALUES if not (cfg['signed'] is False and v < 0)]
         inputs = [v for v in vals] + [[vals[0], vals[2]], [vals[3], 0.5]]
         for v in inputs:
@@ -214,7 +229,14 @@ class BestSizesCapped(Contract):
             lsb = Fraction(1, 2 ** x.n_frac) if x.n_frac >= 0 else Fraction(2 ** -x.n_frac)
             stored = [Fraction(c) * lsb for c in codes]
             exact = all(s == Fraction(w) for s, w in zip(stored, vs))
+            def fits64(w):
+                fr = Fraction(w); fbits = fr.denominator.bit_length() - 1
+                ibits = 0
+                while not (-(1 << ibits) <= fr < (1 << ibits)) if x.signed else not (0 <= fr < (1 << ibits)):
+                    ibits += 1
+                return fbits + ibits + (1 if x.signed else 0) <= 64
             ok = {'word_cap': x.n_word <= 64,
+                  'exact_when_it_fits': exact or not all(fits64(w) for w in vs),
                   'error_below_lsb': all(abs(s - Fraction(w)) < lsb for s, w in zip(stored, vs)),
                   'inaccuracy_iff_inexact': bool(x.status['inaccuracy']) == (not exact),
                   'no_overflow': not x.status['overflow'] and not x.status['underflow']}
@@ -227,6 +249,6 @@ class BestSizesCapped(Contract):
         if obs['exc']:
             return {}
         failed = {b[0] for b in obs['bad']}
-        out = {k: (k not in failed) for k in ('word_cap', 'error_below_lsb', 'inaccuracy_iff_inexact', 'no_overflow')}
+        out = {k: (k not in failed) for k in ('word_cap', 'exact_when_it_fits', 'error_below_lsb', 'inaccuracy_iff_inexact', 'no_overflow')}
         out['nonvacuous'] = obs['cases'] >= 10
         return out
